@@ -101,11 +101,10 @@ Fixpoint skipped_from (i : N) (cs : list tcase) : list N :=
   end.
 Definition skipped_ids := skipped_from 0%N.
 
-(* printed in replays: (S, goja-position model I, does the implementation agree with I up to the
-   completion value?) ; for metamorphic pairs: the index of the first differing event *)
+(* printed in replays: S, the statement-position variant of S (proved equal up to the completion value),
+   the model self-check; for metamorphic pairs: the index of the first differing event *)
 Inductive expectation :=
-| XFrag (s : obs) (goja_model : obs) (impl_agrees_with_goja_incdec_model : bool)
-        (impl_agrees_with_goja_incdec_and_const_model : bool) (selfcheck : bool)
+| XFrag (s : obs) (s_unused_variant : obs) (selfcheck : bool)
 | XMeta (first_diff : nat)
 | XNone.
 
@@ -117,12 +116,7 @@ Fixpoint first_diff (a b : list (list Z)) (i : nat) : nat :=
 
 Definition expected (c : tcase) : expectation :=
   match c with
-  | TFrag place p o =>
-      let g := run_env_pm PGoja fuel p in
-      XFrag (run_env fuel p) g
-            (match match_obs false place g o with Some b => b | None => false end)
-            (match match_obs false place (run_env_pm PGojaC fuel p) o with Some b => b | None => false end)
-            (model_selfcheck p)
+  | TFrag place p o => XFrag (run_env fuel p) (run_env_pm PUnused fuel p) (model_selfcheck p)
   | TMeta a b => XMeta (first_diff a b 0)
   | TFail => XNone
   end.
